@@ -263,7 +263,18 @@ def rows(eng, a):
     return [getitem(eng, a, i) for i in range(a.shape[0])]
 
 
+def _sym2(*vals):
+    """an operand that belongs to the symbolic 2-D model (npmodels.S2Arr and its helpers)?"""
+    from . import npmodels
+
+    return npmodels.has_s2(*vals)
+
+
 def matmul(eng, a, b):
+    if _sym2(a, b):
+        from . import npmodels
+
+        return npmodels.s2_matmul(eng, a, b)
     used(eng, "dot-product")
     a, b = _as_narr(eng, a), _as_narr(eng, b)
     if a.ndim == 0 or b.ndim == 0:
@@ -399,6 +410,10 @@ def method_of(eng, v, name):
 
 # ------------------------------------------------------------- np functions
 def np_sum(eng, args, kwargs):
+    if isinstance(args[0], SArr) or _sym2(args[0]):
+        from . import npmodels
+
+        return npmodels.s2_reduce(eng, "sum", args, kwargs)
     a = _as_narr(eng, args[0])
     axis = kwargs.get("axis", args[1] if len(args) > 1 else None)
     ix = idx_of(a)
@@ -433,6 +448,10 @@ def np_cross(eng, args, kwargs):
 
 
 def np_norm(eng, args, kwargs):
+    if isinstance(args[0], SArr) or _sym2(args[0]):
+        from . import npmodels
+
+        return npmodels.s2_norm(eng, args, kwargs)
     used(eng, "np.linalg.norm=sqrt(sum of squares) over the reals")
     a = _as_narr(eng, args[0])
     axis = kwargs.get("axis")
@@ -478,6 +497,52 @@ def np_full(eng, args, kwargs):
     return NArr(sh, [fv] * int(np.prod(sh, dtype=int)), k, dt)
 
 
+def np_hstack(eng, args, kwargs):
+    """np.hstack / np.column_stack: concrete-shape operands are evaluated through np.concatenate's index arithmetic"""
+    seq = args[0].items if isinstance(args[0], PList) else list(args[0])
+    which = kwargs.pop("__which__", "hstack")
+    if _sym2(seq) or (which == "column_stack" and any(isinstance(x, SArr) for x in seq)):
+        from . import npmodels
+
+        main = next((x for x in seq if type(x).__name__ != "SArr" and hasattr(x, "transposed")), None)
+        if main is not None and main.transposed:
+            raise Unsupported("np.hstack / np.column_stack of (k,n) symbolic arrays (along the symbolic axis)")
+        return npmodels.s2_hstack(eng, seq, which)
+    if any(isinstance(x, SArr) for x in seq):
+        return np_concatenate(eng, [PList(list(seq))], {})  # np.hstack of 1-D arrays = np.concatenate
+    arrs = [_as_narr(eng, x) for x in seq]
+    if which == "column_stack":
+        arrs = [from_index(a.items, idx_of(a).reshape(-1, 1), a.kind, a.dtype) if a.ndim < 2 else a for a in arrs]
+        return np_concatenate(eng, [PList(arrs)], {"axis": 1})
+    if all(a.ndim == 1 for a in arrs):
+        return np_concatenate(eng, [PList(arrs)], {"axis": 0})
+    return np_concatenate(eng, [PList(arrs)], {"axis": 1})
+
+
+def np_column_stack(eng, args, kwargs):
+    return np_hstack(eng, args, dict(kwargs, __which__="column_stack"))
+
+
+def np_einsum(eng, args, kwargs):
+    from . import npmodels
+
+    return npmodels.s2_einsum(eng, args, kwargs)
+
+
+def np_mean(eng, args, kwargs):
+    from . import npmodels
+
+    if isinstance(args[0], SArr) or _sym2(args[0]):
+        return npmodels.s2_reduce(eng, "mean", args, kwargs)
+    a = _as_narr(eng, args[0])
+    axis = kwargs.get("axis", args[1] if len(args) > 1 else None)
+    s = np_sum(eng, [a], {} if axis is None else {"axis": axis})
+    cnt = len(a.items) if axis is None else a.shape[axis]
+    if cnt == 0:
+        raise Unsupported("mean of an empty array")
+    return emap(eng, lambda x: eng.binop(ast.Div(), x, cnt), s) if isinstance(s, NArr) else eng.binop(ast.Div(), s, cnt)
+
+
 def np_stack(eng, args, kwargs):
     seq0 = args[0].items if isinstance(args[0], PList) else list(args[0])
     if seq0 and all(isinstance(x, SArr) for x in seq0):
@@ -501,6 +566,10 @@ def np_stack(eng, args, kwargs):
 
 def np_concatenate(eng, args, kwargs):
     seq = args[0].items if isinstance(args[0], PList) else args[0]
+    if _sym2(seq):
+        from . import npmodels
+
+        return npmodels.s2_concatenate(eng, args, kwargs)
     if any(isinstance(x, SArr) for x in seq):
         from . import npmodels
 
@@ -526,6 +595,10 @@ def np_concatenate(eng, args, kwargs):
 
 def np_sqrt(eng, args, kwargs):
     v = args[0]
+    if isinstance(v, SArr) or _sym2(v):
+        from . import npmodels
+
+        return npmodels.s2_sqrt(eng, v)
     if isinstance(v, NArr):
         return emap(eng, lambda x: eng.sqrt(x), v, kind="real")
     return eng.sqrt(v)
@@ -762,4 +835,5 @@ NP_MODELS = {
     np.abs: np_abs, np.absolute: np_abs, np.clip: np_clip, np.isclose: np_isclose, np.allclose: np_allclose,
     np.array_equal: np_array_equal, np.min: np_minmax(True), np.max: np_minmax(False), np.maximum: np_maximum,
     np.minimum: np_minimum, np.asarray: np_asarray, np.outer: np_outer,
+    np.hstack: np_hstack, np.column_stack: np_column_stack, np.einsum: np_einsum, np.mean: np_mean,
 }
